@@ -107,8 +107,8 @@ func (d *RandomWinnerResolver) Spec_Resolve(
 	generator utils.ValueGenerator,
 ) *DrawResolution {
 	if generator() < 0.5 {
-		return d.current.Resolve(currentEval, newEval, sameBuffer, worseThanCurrent, current, another, generator)
+		return d.current.Spec_Resolve(currentEval, newEval, sameBuffer, worseThanCurrent, current, another, generator)
 	} else {
-		return d.newer.Resolve(currentEval, newEval, sameBuffer, worseThanCurrent, current, another, generator)
+		return d.newer.Spec_Resolve(currentEval, newEval, sameBuffer, worseThanCurrent, current, another, generator)
 	}
 }
